@@ -13,13 +13,13 @@ git checkout -q --detach $(git -C /repo rev-parse HEAD) 2>/dev/null
 cp $SRC/demo.rs tests/demo_$NAME.rs
 # a demonstration that uses the I/O tap / failpoints is built with the hooks on
 if grep -q "verif_io\|pearl_verif\|pearl::verif" $SRC/demo.rs; then DEMOENV="env RUSTFLAGS=--cfg=pearl_verif CARGO_TARGET_DIR=/tmp/confirm_target_v"; else DEMOENV=""; fi
-base=$($DEMOENV cargo test --offline --test demo_$NAME 2>&1 | grep -E "^test result" | tail -1)
+base=$($DEMOENV timeout 900 cargo test --offline --test demo_$NAME 2>&1 | grep -E "^test result" | tail -1)
 if ! git apply --check $SRC/patch.diff 2>/dev/null; then echo "$NAME: PATCH-DOES-NOT-APPLY"; exit 1; fi
 git apply $SRC/patch.diff
 b1=$(cargo build --offline 2>&1 | grep -cE "^error")
 b2=$(RUSTFLAGS="--cfg pearl_verif" CARGO_TARGET_DIR=/tmp/confirm_target_v cargo build --offline 2>&1 | grep -cE "^error")
-mut=$($DEMOENV cargo test --offline --test demo_$NAME 2>&1 | grep -E "^test result" | tail -1)
+mut=$($DEMOENV timeout 900 cargo test --offline --test demo_$NAME 2>&1 | grep -E "^test result" | tail -1)
 rm tests/demo_$NAME.rs
-suite=$(cargo test --workspace --no-fail-fast --offline 2>&1 | grep -E "^test result" | tr '\n' ';')
+suite=$(timeout 1800 cargo test --workspace --no-fail-fast --offline 2>&1 | grep -E "^test result" | tr '\n' ';')
 git checkout -q -- . && git clean -qfd tests/ >/dev/null 2>&1
 echo "$NAME: base=[$base] build_err=$b1/$b2 mutated=[$mut] suite=[$suite]"
